@@ -34,7 +34,9 @@ Record fcase := {
   f_entries : list entry;            (* --credentials *)
   f_up : upstream;                   (* upstream selection *)
   f_req : req;                       (* the client's request (it passed access control) *)
-  f_scheme : str;                    (* URL scheme of a non-CONNECT request *)
+  f_scheme : str;                    (* URL scheme of a non-CONNECT request: how it REALLY travels ("https" inside MITM) *)
+  f_mitm : bool;                     (* the request was read from an intercepted TLS session *)
+  f_claimed : str;                   (* the scheme the client claimed there (request line, else X-Forwarded-Proto, else https) *)
   f_inner_auth : list str;           (* Authorization lines the client sent INSIDE the tunnel (CONNECT only) *)
   f_msgs : list gmsg                 (* message heads received by origin / upstream proxy, in order *)
 }.
@@ -68,7 +70,7 @@ Definition fcase_model_ok (c : fcase) : bool :=
   | Some m =>
       let om := match f_entries c with [] => None | _ => Some m end in
       (* what arrives through a tunnel the CLIENT opened is the client's own: not a message of the model *)
-      msgs_agree (forward om (f_up c) (f_scheme c) (f_req c))
+      msgs_agree (forward om (f_up c) (if f_mitm c then mitm_lookup_scheme (f_claimed c) else f_scheme c) (f_req c))
                  (filter (fun g => negb (is_connect (f_req c) && gkind_eqb (g_kind g) GTunnelInner)) (f_msgs c))
   end.
 
